@@ -9,3 +9,12 @@ def run(rep, tier, seed):
     T.standard_campaign(rep, "C13", tier, seed, tables=["pause", "stop", "nw1", "wait"])
     from harness.props import real_sched
     real_sched.campaign(rep, "C13", tier, seed, failures=True)
+    # scheduler level: failures inside synchronous and asynchronous Hyperband
+    from harness.props import c05, asynchb_common
+    from harness import asynchb_models as A
+    rep.extra["synchb_failure_flags"] = c05.campaign_c13(rep, tier, seed)
+    tabs = {"stop_faults": A.base(Faults=True), "promo_faults": A.base(Type="promotion", MRA=True, Faults=True),
+            "promo_nockpt_faults": A.base(Type="promotion", Ckpt=False, Faults=True, IsMin=False)}
+    rep.extra["asynchb_failure_flags"] = asynchb_common.campaign(
+        rep, tier, seed, tabs, ["PromoteOnlyEligible", "NeverRaises"],
+        {"promote_not_paused", "scheduler_raised", "promoted_twice", "promote_not_in_rung"})
